@@ -31,6 +31,9 @@ class ThreadedWorld(world.World):
 
     def start_engine(self):
         world.World.start_engine(self)
+        self._install_busy_timeout()
+
+    def _install_busy_timeout(self):
         import sqlalchemy
 
         @sqlalchemy.event.listens_for(self.engine._data_store, 'connect')
